@@ -306,6 +306,14 @@ def run(job, seed):
                                                      tr(False)),
                             {'x': '%(k)s', 'target': target, 'creds': creds},
                             tr(False), got, space)
+            # ... and after those calls the SAME check objects meet a target
+            # that has the key again
+            target = {'k': x}
+            exp = rleaf.role_allows('%(k)s', target, _creds([x.upper()]))
+            acc.case(space, bool(x))
+            _check(acc, enf, space, CONTEXTS[:2], target, [x.upper()], exp,
+                   {'x': '%(k)s', 'target': target, 'roles': [x.upper()],
+                    'after': 'calls with the key missing'})
         acc.sample(space, {'x': 'a:B', 'roles': ['A:b']})
     elif space == 'debuglog':
         # the same decisions with every oslo_policy logger at DEBUG and a
